@@ -31,7 +31,13 @@ PY
 elif [ "$cmd" = run ]; then
   name=$1; shift
   git -C /repo apply /verif/seeded/$name/patch.diff || exit 2
-  for p in "$@"; do (cd /verif && timeout 3000 python3 check.py $p --tier ${TIER:-quick} 2>&1 | grep -v "^WARNING" | cut -c1-400 | tail -6); done
+  mkdir -p /verif/_build/evidence_keep
+  for p in "$@"; do
+    cp -f /verif/evidence/$p.json /verif/_build/evidence_keep/$p.json 2>/dev/null
+    (cd /verif && timeout 3000 python3 check.py $p --tier ${TIER:-quick} 2>&1 | grep -v "^WARNING" | cut -c1-400 | tail -6)
+    # evidence written while a seeded change is applied must never be kept
+    cp -f /verif/_build/evidence_keep/$p.json /verif/evidence/$p.json 2>/dev/null
+  done
   git -C /repo checkout -- .
   git -C /repo status --short
 fi
